@@ -18,7 +18,7 @@ def _flatten_and(v):
     raise AnalysisError("is_staircase: unreadable condition %r" % (v,))
 
 
-def accepted_set(F):
+def accepted_set(F, ck=None, rule=None):
     """Returns {'first': {offsets accepted in row 0}, 'rest': {offsets accepted in row j != 0 (in terms of j)},
     'count_ok': bool} where offsets are relative to D = num_cols - num_rows, rendered as strings."""
     b = F.body(PATH)
@@ -40,13 +40,33 @@ def accepted_set(F):
     Dn = Cn - Rn
     base = {single_atom(R): Rn, single_atom(Cc): Cn}
     count_ok = False
+    rets_skip = []
     if rets:
         # form 1: a loop over iter_all() that returns false on an unexpected entry and counts the others
         for e in rets:
             if e.args != [("bool", False)]:
                 raise AnalysisError("is_staircase: early return of something other than `false`")
             if not e.loops or e.loops[0][0] != "iter" or "iter_all" not in repr(e.loops[0][2]):
+                # a reject that looks at the *storage order* of the entries (first / last / next / nth of a row or column list) makes the
+                # answer depend on the order of insertion, not on the set of ones: a verdict, not an unreadable shape
+                gtxt = " ".join(repr(g_) for g_, _ in e.guards)
+                order_dep = any(x in gtxt for x in ("Iterator::last(", "Iterator::next(", "Iterator::nth(", "::first(", "::last(", "Iterator::max(", "Iterator::min(")) and \
+                    any(x in gtxt for x in ("iter_row(", "iter_col(", "iter_all("))
+                if order_dep and ck is not None and not any(x in gtxt for x in ("Iterator::max(", "Iterator::min(")):
+                    ck.fail(rule, "is_staircase:order-dependent-reject", e.site,
+                            "is_staircase returns false on a condition about the position of an entry in the stored list of a row / column "
+                            "(first, last, next, nth): the same matrix built in another insertion order is judged differently")
+                    rets_skip.append(e)
+                    continue
                 raise AnalysisError("is_staircase: rejecting return outside a loop over iter_all()")
+        rets = [e for e in rets if e not in rets_skip]
+        # (path conditions contributed by a reject already reported are left out of the evaluation of the rest)
+        skipc = {repr(g_) for e_ in rets_skip for g_, _ in e_.guards}
+        for e_ in rets:
+            e_.guards = [(g_, p_) for g_, p_ in e_.guards if repr(g_) not in skipc]
+        tr.assign_sites = [(nm_, v_, l_, [(g_, p_) for g_, p_ in gs_ if repr(g_) not in skipc]) for nm_, v_, l_, gs_ in tr.assign_sites]
+        if not rets:
+            raise AnalysisError("is_staircase: no rejecting loop left to read")
         jn, kn = rets[0].loops[0][1]
 
         def rejected(j, k):
